@@ -50,7 +50,9 @@ def check(run):
         gens.append(("mem3", {"NW": "3", "Lens": "{1}", "MaxB": "2"}, False))
     for name, ov, syncadd in gens:
         inits, edges = run.tlc_edges("ChunkCacheGen", "ChunkCache_gen.cfg", ov, timeout=1500)
-        walks, st = edge_cover(inits, edges, maxlen=30, rng=run.rng, extra_walks=100 if thorough else 20)
+        # the 3-writer graph (thorough) has >3*10^5 edges: replay a bounded number of edge-covering walks of it
+        walks, st = edge_cover(inits, edges, maxlen=30, rng=run.rng, extra_walks=100 if thorough else 20,
+                               max_walks=12000 if name == "mem3" else None)
         log("[walks] %s: %s" % (name, st))
         exhaustive = exhaustive and st["covered"] == st["edges"]
         out = os.path.join(run.scratch, "replay_%s.ndjson" % name)
